@@ -151,6 +151,8 @@ def run(s):
     K.story_grid(s, 3, layouts=('between',), pretties=(False,), full=False, timed=(False,))
     K.item_grid(s, 2, pretties=(False,), full=False, inters=(True,))
     K.idless_cases(s)
+    K.story_grid(s, 6, layouts=('none',), pretties=(False,), kmax=2, full=False, names=K.HOSTILE_NAMES_C)
+    K.item_grid(s, 6, pretties=(False,), kmax=2, full=False, inters=(False,), item_names=K.HOSTILE_NAMES_C)
     K.fuzz(s, 150 if q else 6000, K.kind_weights(1, 1, 0.4, 0.02), steps=(10, 40), text='hostile',
            timing='any', shape_weights=(0.5, 0.2, 0.25, 0.05), selfref=0.25, blank_carried=0.06, direct=0.15)
     hostile_id_histories(s, 120 if q else 2500)
